@@ -610,6 +610,8 @@ def run(ctx):
                        witness='select * from int1.t ta join proj.model.7 tb')
     ctx.setcount('model_step_sites', nap)
     ctx.floor('model_step_sites', 5)
+    for label, ok, msg, line in model_resolution_table(ctx):
+        ctx.ob('C10.model-resolution', label, ok, msg, file=QP, line=line, witness='select * from int2.t1 a join pred b on a.x = b.x  -- default namespace int1')
     # G. classification of table references (CTE exemption, projects, integrations): get_query_info interpreted on probes
     for label, ok, msg, line in query_info_table(ctx):
         ctx.ob('C10.cte-exemption', label, ok, msg, file=QP, line=line,
@@ -621,6 +623,46 @@ def run(ctx):
     ctx.floor('name_comparisons', 2)
     ctx.sample({'normalised_returns': sorted(f'{k[0]}[{k[1]}]' for k, v in an.ret_norm.items() if v and k[0] in ('QueryPlanner.resolve_database_table', 'PlanJoin.check_single_integration'))})
     ctx.sample({'normalised_dict_entries': sorted(f'{k[0]}[{k[1]!r}]' for k, v in an.dict_norm.items() if v)})
+
+
+def model_resolution_table(ctx):
+    """get_predictor interpreted on name shapes x catalogs: a reference is a model exactly when <namespace>.<name> is in the catalog, where the namespace is the
+    qualifier (or the default namespace for a bare name) - the same place the table resolvers send the name to.  -> list of (label, ok, message, line)"""
+    from ..interp import Interp, Obj, Raised, Env
+    qp = class_named(ctx.src.tree(QP), 'QueryPlanner')
+    gp = function_named(qp, 'get_predictor')
+    ctx.need(gp is not None, 'get_predictor not found')
+    catalog = {'mindsdb.pred': {'name': 'pred', 'integration_name': 'mindsdb'}, 'proj.tp3': {'name': 'tp3', 'integration_name': 'proj'}}
+    cases = [
+        (['pred'], 'mindsdb', ('mindsdb.pred', None)), (['Pred'], 'mindsdb', ('mindsdb.pred', None)), (['pred'], 'int1', None), (['pred'], None, None),
+        (['mindsdb', 'pred'], 'int1', ('mindsdb.pred', None)), (['MINDSDB', 'PRED'], None, ('mindsdb.pred', None)), (['proj', 'pred'], 'mindsdb', None),
+        (['proj', 'tp3', '7'], 'mindsdb', ('proj.tp3', '7')), (['tp3', '7'], 'proj', ('proj.tp3', '7')), (['tp3', '7'], 'mindsdb', None),
+        (['int1', 'mindsdb', 'pred'], 'mindsdb', None), (['int1', 'proj', 'tp3', '7'], 'mindsdb', None), (['tbl'], 'mindsdb', None), (['int1', 'tbl'], 'mindsdb', None),
+    ]
+    out = []
+    for parts, default_ns, want in cases:
+        self_ = Obj('QueryPlanner', predictor_info={k: dict(v) for k, v in catalog.items()}, default_namespace=default_ns, predictor_namespace='mindsdb',
+                    databases=['int1', 'int2', 'mindsdb', 'proj'], projects=['mindsdb', 'proj'])
+        it = Interp({'Identifier': set()}, {})
+        label = f'{".".join(parts)} (default namespace {default_ns})'
+        try:
+            info = it.call_function(gp, [self_, Obj('Identifier', parts=list(parts), alias=None)], {}, Env())
+        except Raised as r:
+            out.append((label, False, f'get_predictor raises {r.exc_name} on {label}', gp.lineno))
+            continue
+        if want is None:
+            ok = info is None
+            got = None if info is None else (info.get('integration_name'), info.get('name'), info.get('version'))
+        else:
+            key, ver = want
+            ok = isinstance(info, dict) and info.get('integration_name') == catalog[key]['integration_name'] and str(info.get('name', '')).lower() == catalog[key]['name'] \
+                and info.get('version') == ver
+            got = None if info is None else (info.get('integration_name'), info.get('name'), info.get('version'))
+        out.append((label, ok and self_.predictor_info == catalog,
+                    f'[{label}] get_predictor answers {got}, expected {want}: a name is a model exactly when its qualifier (the default namespace for a bare name) plus '
+                    f'name is in the model catalog, the version suffix is kept, names of tables inside a database (database.schema.table) are tables, and the catalog is '
+                    f'not modified', gp.lineno))
+    return out
 
 
 def query_info_table(ctx):
